@@ -90,7 +90,7 @@ def _work(args):
     for case in chunk:
         try:
             res = _MOD.run_case(case) or {}
-            if gate or res.get('violations'):
+            if (gate or res.get('violations')) and not res.get('nogate'):
                 res2 = _MOD.run_case(case) or {}
                 if _strip(res) != _strip(res2):
                     out['harness'].append(
